@@ -23,6 +23,7 @@ RULE = ("random permission tables (1..6 entries over 9 paths incl. nested, dupli
         "(table, verb, target, alias, outcome); non-trivial = the table has an entry below the root.")
 RULE += ("  " + 'Also: allowed relative transfers with a CWD between mark and data connection give the same result as without the move; the same probe on a connection that another account used before (and looked at the path) gives the same result as on a fresh connection.')
 RULE += ("  " + 'Also (round 10): the same relative argument given by another account from another directory on this connection, re-login, the argument again at once from the home directory: replies and tree as on a fresh connection (after_relogin_elsewhere).')
+RULE += ("  " + 'Also (round 11): one User object asked 800 questions in a row (400 of them about paths nobody asked before).')
 ASSUMPTIONS = ["ties between entries with the same path but different flags accept either entry", "MemoryPathIO back end"]
 REQUIRED_MONITORS = ["function_level", "wire_denied", "wire_allowed"]
 ANCHOR_FUNCTIONS = ['server.py:User.get_permissions', 'server.py:PathPermissions.__call__.<locals>.wrapper', 'server.py:Permission.is_parent']
